@@ -445,3 +445,92 @@ Definition wstep (fx : bool) (w : cache * cache) (o : op) : (cache * cache) * ou
       end
   | CanResume q p => (w, OBool (can_resume fx c0 q p && can_resume fx c1 q p), OOk)
   end.
+
+(** ** EncoderCache (kvcache/encoder.go): one position-independent K/V entry (the most recent image), with the
+    bookkeeping of the position it belongs to.  [e_data] is what the storage tensors of each layer hold, [e_pend] the
+    copies queued by Put in the graph of the current pass (executed by Compute, dropped by a reservation pass or a new
+    pass).  [fx = true]: with fixes/C06-encoder-shift.patch (Remove moves encoderPos down with the positions behind the
+    removed range). *)
+Record enc := mkEnc {
+  e_cached : bool; e_pos : Z; e_cur : Z; e_reserve : bool;
+  e_data : list (nat * N); e_pend : list (nat * N)
+}.
+Definition enc_init : enc := mkEnc false 0 0 false [] [].
+
+Inductive eop :=
+| EStart (positions : list Z) (mm : list nat) (reserve : bool)   (* StartForward; mm = indices of the multimodal inputs *)
+| EPut (layer : nat) (img : N)
+| ECompute (run : bool)                                           (* the pass is computed / only reserved *)
+| ERemove (b e : Z)
+| EResume.
+
+Fixpoint lookupN (m : list (nat * N)) (l : nat) : option N :=
+  match m with [] => None | (k, v) :: t => if Nat.eqb k l then Some v else lookupN t l end.
+Definition storeN (m : list (nat * N)) (kv : nat * N) : list (nat * N) :=
+  kv :: filter (fun x => negb (Nat.eqb (fst x) (fst kv))) m.
+
+Definition enc_remove (fx : bool) (e : enc) (b en : Z) : enc :=
+  if (b <=? e_pos e) && (e_pos e <? en)
+  then mkEnc false (e_pos e) (e_cur e) (e_reserve e) (e_data e) (e_pend e)
+  else if fx && (en <=? e_pos e) && negb (en =? MaxInt32)
+       then mkEnc (e_cached e) (e_pos e - (en - b)) (e_cur e) (e_reserve e) (e_data e) (e_pend e)
+       else e.
+
+(** [None] = index out of range of batch.Positions (a Go panic) *)
+Definition enc_start (e : enc) (positions : list Z) (mm : list nat) (reserve : bool) : option enc :=
+  match mm with
+  | [] => Some (mkEnc (e_cached e) (e_pos e) (e_cur e) reserve (e_data e) [])
+  | _ => match nth_error positions (last mm 0%nat) with
+         | Some p => Some (mkEnc (e_cached e) (e_pos e) p reserve (e_data e) [])
+         | None => None
+         end
+  end.
+
+Definition enc_put (e : enc) (layer : nat) (img : N) : enc :=
+  if e_reserve e then mkEnc (e_cached e) (e_pos e) (e_cur e) (e_reserve e) (e_data e) (e_pend e ++ [(layer, img)])
+  else mkEnc true (e_cur e) (e_cur e) (e_reserve e) (e_data e) (e_pend e ++ [(layer, img)]).
+
+Definition enc_compute (e : enc) (run : bool) : enc :=
+  mkEnc (e_cached e) (e_pos e) (e_cur e) (e_reserve e)
+        (if run then fold_left storeN (e_pend e) (e_data e) else e_data e) [].
+
+Definition estep (fx : bool) (e : enc) (o : eop) : option enc :=
+  match o with
+  | EStart ps mm r => enc_start e ps mm r
+  | EPut l img => Some (enc_put e l img)
+  | ECompute run => Some (enc_compute e run)
+  | ERemove b en => Some (enc_remove fx e b en)
+  | EResume => Some e
+  end.
+
+(** WrapperCache(EncoderCache, Causal) as mllama builds it: layer 0 = cross attention (encoder cache), the others self
+    attention.  A forward pass whose batch carries the image at index [at] stores it (Put + Compute). *)
+Inductive ewop :=
+| EWForward (batch : list entry) (img : option (nat * N))
+| EWRemove (q : nat) (b e : Z)
+| EWResume (q : nat) (p : Z).
+
+Fixpoint enc_unwind (fx : bool) (e : enc) (batch : list entry) : enc :=
+  match batch with
+  | [] => e
+  | (_, p, _) :: t => enc_unwind fx (enc_remove fx e p MaxInt32) t
+  end.
+
+Definition ewstep (fx : bool) (w : enc * cache) (o : ewop) : option ((enc * cache) * out) :=
+  let '(e, c) := w in
+  match o with
+  | EWForward batch img =>
+      match enc_start e (map (fun x : entry => snd (fst x)) batch) (match img with Some (at_, _) => [at_] | None => [] end) false with
+      | None => None
+      | Some e1 =>
+          let '(c', r) := start_forward fx c batch in
+          match r with
+          | OFwd _ => Some ((match img with
+                             | Some (_, id) => enc_compute (enc_put e1 0 id) true
+                             | None => enc_compute e1 true end, c'), r)
+          | _ => Some ((enc_unwind fx e1 batch, c'), r)
+          end
+      end
+  | EWRemove q b en => let '(c', r) := remove c q b en in Some ((enc_remove fx e b en, c'), r)
+  | EWResume q p => Some (w, OBool (can_resume fx c q p))
+  end.
